@@ -226,7 +226,7 @@ func driveQUIC(rg *rand.Rand, ccfg *tls.Config, spec *tls.ClientHelloSpec, scfg 
 func TestC23(t *testing.T) {
 	r := mon.New("C23", "generated TLS 1.3-only QUIC ClientHello specs (quic_transport_parameters incl. GREASE parameters) x QUIC server configs (incl. HelloRetryRequest) x PRNG-chosen event-pump orders and CRYPTO fragmentation x failure injections (unbuildable config: no ServerName, empty PSK without OmitEmptyPsk, two padding extensions; server alert; context cancelled at a random step): trace specification over the NextEvent streams of both sides; every Start/HandleData/Close runs in its own goroutine and must return within 10 s. Race detector on. distinct = event-order signatures")
 	defer r.Finish(t)
-	n := mon.Pick(400, 4000)
+	n := mon.Pick(400, 30000)
 	orders := map[string]bool{}
 	for i := 0; i < n; i++ {
 		rg := Sub("C23", i)
